@@ -25,11 +25,11 @@ import (
 
 // v10pNorm is the denotation of one rendering.
 type v10pNorm struct {
-	upd  map[string]string // canonical instance path of a non-key leaf -> value as string
-	del  map[string]bool   // canonical path of a deleted subtree
-	dup  bool              // a leaf was written twice
-	bad  []string          // things the normaliser could not interpret
-	xml  *v10pXmlFacts
+	upd map[string]string // canonical instance path of a non-key leaf -> value as string
+	del map[string]bool   // canonical path of a deleted subtree
+	dup bool              // a leaf was written twice
+	bad []string          // things the normaliser could not interpret
+	xml *v10pXmlFacts
 }
 
 func v10pNewNorm() *v10pNorm {
@@ -45,17 +45,17 @@ func (n *v10pNorm) setUpd(id, val string) {
 
 // v10pXmlFacts: structural facts about one XML document.
 type v10pXmlFacts struct {
-	unnamed        bool     // an element without a name
-	keysMissing    bool     // a list entry element lacks a key element
-	keysNotFirst   bool     // keys are not the first children in key-statement order ...
-	keysPermuted   bool     // ... two keys appear in another relative order than in the key statement
-	keysAfterOther bool     // ... a non-key child precedes a key
-	entryIDs       []string // canonical id of every list entry element
-	opBadSpelling  bool     // deletion not spelled delete / remove as configured
-	opBadPrefix    bool     // nc: prefix present without / absent with operationWithNamespace
-	opOther        []string // operation values other than delete/remove
-	nsWrong        bool     // an element resolves to another namespace than its schema node's
-	nsWrongOnDeletedLeaf bool // ... and it is a leaf element carrying the delete operation
+	unnamed              bool     // an element without a name
+	keysMissing          bool     // a list entry element lacks a key element
+	keysNotFirst         bool     // keys are not the first children in key-statement order ...
+	keysPermuted         bool     // ... two keys appear in another relative order than in the key statement
+	keysAfterOther       bool     // ... a non-key child precedes a key
+	entryIDs             []string // canonical id of every list entry element
+	opBadSpelling        bool     // deletion not spelled delete / remove as configured
+	opBadPrefix          bool     // nc: prefix present without / absent with operationWithNamespace
+	opOther              []string // operation values other than delete/remove
+	nsWrong              bool     // an element resolves to another namespace than its schema node's
+	nsWrongOnDeletedLeaf bool     // ... and it is a leaf element carrying the delete operation
 }
 
 // v10pTarget renders every encoding of the same source.
@@ -90,14 +90,12 @@ func (t *v10pTarget) Set(ctx context.Context, source target.TargetSource) (*sdcp
 		t.err = err
 		return &sdcpb.SetDataResponse{}, nil
 	}
-	//v10pdbg:proto
 	t.proto = append(t.proto, v10pNormProto(upds, dels))
 	j, err := source.ToJson(true)
 	if err != nil {
 		t.err = err
 		return &sdcpb.SetDataResponse{}, nil
 	}
-	//v10pdbg:json
 	t.json = append(t.json, v10pNormJson(j))
 	ji, err := source.ToJsonIETF(true)
 	if err != nil {
@@ -112,7 +110,6 @@ func (t *v10pTarget) Set(ctx context.Context, source target.TargetSource) (*sdcp
 			t.err = err
 			return &sdcpb.SetDataResponse{}, nil
 		}
-		//v10pdbg:xml
 		docs = append(docs, v10pNormXml(doc, i&1 != 0, i&2 != 0, i&4 != 0))
 	}
 	t.xml = append(t.xml, docs)
@@ -502,6 +499,15 @@ func v10pPickScenario() *vScenario {
 			v10pDkKeyLeaf("x1", "y2", "key1", "x1"),
 			v10pDkKeyLeaf("x1", "y2", "key2", "y2"),
 		}, owners: []string{"A", "B"}}
+	case 12:
+		// a top-level leaf (uint32, range "10..300 | 5000..5020 | 9999"; requests with other values are rejected)
+		sc = &vScenario{leaves: []*vLeaf{vRangeLeaf()}, owners: []string{"A", "B"}}
+	case 13:
+		// ... next to a list entry, so that the leaf can be deleted while other configuration remains
+		sc = &vScenario{leaves: []*vLeaf{vRangeLeaf(), vIfLeaf("lo1", "mtu", true), vIfKeyLeaf("lo1")}, owners: []string{"A", "B"}}
+	case 14:
+		// as 13 with a single owner
+		sc = &vScenario{leaves: []*vLeaf{vRangeLeaf(), vIfLeaf("lo1", "mtu", true), vIfKeyLeaf("lo1")}, owners: []string{"A"}}
 	default:
 		return vPickScenario()
 	}
